@@ -194,11 +194,26 @@ class Ctx:
         near = pm.take_log()
         if cond:
             self.ok(rule, key, detail or "held")
-        elif strict or (strict is None and (not self.lenient or rule in self.strict_rules or armed(rule, key))) or near:
+        elif strict or (strict is None and (not self.lenient or rule in self.strict_rules or (armed(rule, key) and self._recognised(file, line)))) or near:
             self.bad(rule, key, message + (f" — found {near[0]}" if near else ""), file, line, witness, **facts)
         else:
             self.unres(rule, key, "construct not recognised: " + message[:160])
         return cond
+
+    def _recognised(self, file, line):
+        """An armed absence test is believed only where the function it looked at is (nearly) the reviewed function:
+        see fdiff.  Files without a function-level reference (.hy sources) are taken as recognised."""
+        src = getattr(self, "src", None)
+        if src is None or not file or not str(file).endswith(".py") or os.environ.get("HYVERIF_ALL_STRICT"):
+            return True
+        try:
+            from . import fdiff
+            mod = src.variant(True).py(file)
+            ok, why = fdiff.small_edit(mod, line or 0) if line else fdiff.file_small_edit(mod)
+        except Exception:
+            return False
+        self.last_recognition = why
+        return ok
 
     def decide(self, rule, key, verdict, message, file="", line=0, witness="", detail="", **facts):
         """verdict True: held; False: violated (the facts were extracted and contradict the rule); None: not recognised."""
@@ -236,6 +251,7 @@ def transfer(ctx, src, mod, rules, key_filter=None, rename=None):
     """Run another property's check in a scratch context and adopt the instances/findings of the given rules."""
     sub = Ctx(ctx.prop, ctx.tier, ctx.seed, lenient=bool(getattr(mod, "CANON", False)) and getattr(mod, "LENIENT", True))
     sub.strict_rules = set(getattr(mod, "STRICT", ()))
+    sub.src = src
     try:
         mod.check(sub, src.variant(bool(getattr(mod, "CANON", False))))
     except Unresolved as e:
@@ -274,6 +290,8 @@ def armed(rule, key):
     global _ARMED
     if os.environ.get("HYVERIF_ALL_STRICT"):
         return True
+    if os.environ.get("HYVERIF_NO_ARMED"):
+        return False
     if _ARMED is None:
         try:
             with open(os.path.join(os.path.dirname(os.path.abspath(__file__)), "armed_instances.json")) as f:
@@ -326,6 +344,7 @@ def run_property(prop, fn, tier, seed, src=None, write=True, out=sys.stdout, mod
     src = src or Src()
     ctx = Ctx(prop, tier, seed, lenient=src.canon and getattr(mod, "LENIENT", True))
     ctx.strict_rules = set(getattr(mod, "STRICT", ()))
+    ctx.src = src
     status = 0
     err = None
     try:
